@@ -143,6 +143,13 @@ fn clean(s: &str) -> bool {
 }
 
 /// checks the tab-delimited and terminal renderings against the JSON values
+/// value of a `Label  value` row of the --terminal rendering
+fn term_row(term: &str, label: &str) -> Option<String> {
+  // (an empty announce tier or node list is printed without a line break, so a row may start in the middle of a line)
+  let pat = format!("{label}  ");
+  term.lines().find_map(|l| l.find(&pat).filter(|i| *i == 0 || l[..*i].ends_with(' ')).map(|i| l[i + pat.len()..].trim().to_string()))
+}
+
 fn check_text(j: &Value, tab: &str, term: &str) -> Option<String> {
   let rows = parse_tab(tab);
   let get = |n: &str| rows.iter().find(|r| r.0 == n).map(|r| r.1.clone());
@@ -196,11 +203,18 @@ fn check_text(j: &Value, tab: &str, term: &str) -> Option<String> {
       }
     }
   }
-  for key in ["torrent_size", "content_size", "piece_size"] {
+  // humanised sizes, judged by the statement of C16 (largest unit not exceeding the value, at most two decimals,
+  // within half a hundredth), independently of the implementation's own formatter
+  for (label, key) in [("Torrent Size", "torrent_size"), ("Content Size", "content_size"), ("Piece Size", "piece_size")] {
     let n = j.get(key)?.as_u64()?;
-    let human = imdl::verif::bytes_display(n);
-    if !term.contains(&human) {
-      return Some(format!("--terminal rendering does not show {key} as `{human}`"));
+    let shown = term_row(term, label);
+    match shown {
+      None => return Some(format!("--terminal rendering has no `{label}` row")),
+      Some(text) => {
+        if let Some(complaint) = super::c16::display_spec(n, &text) {
+          return Some(format!("--terminal `{label}` shows {n} as `{text}`: {complaint}"));
+        }
+      }
     }
   }
   // every file name component appears as a tree line
@@ -276,6 +290,17 @@ pub fn run(ctx: &Ctx) -> Report {
     if ans == "out-of-model" {
       report.out_of_model += 1;
       continue;
+    }
+    // the model's humanised sizes (Imdlv.ByteSize.displayBytes) against the terminal rendering
+    if let Some(term) = &o.term {
+      for (label, key) in [("Torrent Size", "torrent_size"), ("Content Size", "content_size"), ("Piece Size", "piece_size")] {
+        if let (Some(n), Some(shown)) = (j.get(key).and_then(|v| v.as_u64()), term_row(term, label)) {
+          let m = model.ask(&format!("C16 display {n}"));
+          if m != format!("ok {shown}") {
+            report.fail("model", "C07.summary", case.clone(), format!("--terminal `{label}` shows {n} as `{shown}`, model `{m}`"));
+          }
+        }
+      }
     }
     match model_json(&ans) {
       Some(mj) if &mj == j => {}
